@@ -7,6 +7,7 @@ pub mod report;
 pub mod rng;
 pub mod sexp;
 pub mod util;
+pub mod vals;
 
 mod c01;
 mod c02;
